@@ -72,10 +72,15 @@ def case_strategy():
 
 
 def norm(t):
-    # the cleartext travels in the transport's line-ending convention, and a lone CR at the very end of the text is
-    # indistinguishable on the wire from the CRLF form of the separator before the signature block
-    t = t.replace('\r\n', '\n')
-    return t[:-1] if t.endswith('\r') else t
+    # the cleartext travels in the transport's line-ending convention
+    return t.replace('\r\n', '\n')
+
+
+def same_text(got, want):
+    """equality modulo CRLF/LF; a lone CR at the very end of the *original* text is indistinguishable on the wire from
+    the CRLF form of the separator before the signature block, so it may be lost (but never gained)"""
+    a, b = norm(got), norm(want)
+    return a == b or (b.endswith('\r') and a == b[:-1])
 
 
 def region(text, cl):
@@ -125,7 +130,7 @@ def eval_pgpy(c, rec, cl):
         rec.finding('framework', 'reference-reader-rejects/' + reg, c, str(e))
         ref_text = None
     if ref_text is not None:
-        if 'lone-cr' not in cl and norm(ref_text) != norm(text):
+        if 'lone-cr' not in cl and not same_text(ref_text, text):
             rec.finding('framework', 'dash-escape/' + reg, c, 'reference reader recovers %r, signed text was %r' % (ref_text[:60], text[:60]))
         want_hashes = sorted({sigkit.HASHES[c['halg']]})
         if sorted(blk.hash_headers) != want_hashes:
@@ -152,7 +157,7 @@ def eval_pgpy(c, rec, cl):
         if back.type != 'cleartext':
             rec.finding('roundtrip', 'reload-type/' + reg, c, back.type)
             return
-        if norm(back.message) != norm(text):
+        if not same_text(back.message, text):
             rec.finding('roundtrip', 'text/' + reg, c, '%r != %r' % (back.message[:60], text[:60]))
         if sorted(bytes(s.__bytearray__()) for s in back.signatures) != sigs:
             rec.finding('roundtrip', 'signatures/' + reg, c, 'signature octets changed')
@@ -186,7 +191,7 @@ def eval_ref(c, rec, cl):
     except Exception as e:   # noqa
         rec.finding('foreign', 'load-exception/' + reg, c, repr(e))
         return
-    if norm(got) != norm(text):
+    if not same_text(got, text):
         rec.finding('foreign', 'text/' + reg, c, '%r != %r' % (got[:60], text[:60]))
     for kid in c['signers']:
         try:
